@@ -101,6 +101,7 @@ type CertSpec struct {
 	NotAfter  time.Time
 	Serial    int64
 	EKU       []x509.ExtKeyUsage
+	IPs       []net.IP // iPAddress SANs
 }
 
 // Issue creates the certificate and returns its DER encoding.
@@ -118,7 +119,7 @@ func Issue(s CertSpec) []byte {
 		s.EKU = []x509.ExtKeyUsage{x509.ExtKeyUsageServerAuth, x509.ExtKeyUsageClientAuth}
 	}
 	t := &x509.Certificate{SerialNumber: big.NewInt(s.Serial), Subject: pkix.Name{CommonName: s.CN},
-		NotBefore: s.NotBefore, NotAfter: s.NotAfter, DNSNames: s.DNS,
+		NotBefore: s.NotBefore, NotAfter: s.NotAfter, DNSNames: s.DNS, IPAddresses: s.IPs,
 		KeyUsage:    x509.KeyUsageDigitalSignature | x509.KeyUsageKeyEncipherment,
 		ExtKeyUsage: s.EKU, BasicConstraintsValid: true, IsCA: s.IsCA}
 	if s.IsCA {
